@@ -137,6 +137,18 @@ class Net:
                 net.cycles[name] = count
                 net.log.append(("cycle", name, count))
             c._on_new_cycle = on_nc
+        if hasattr(c, "value_selection"):
+            orig_sel = c.value_selection
+
+            def sel(val, cost=0, _o=orig_sel):
+                # which call site of the algorithm selected this value (C10 coverage of the value_selection funnel)
+                import sys as _sys
+                fr = _sys._getframe(1)
+                fn = fr.f_code.co_filename
+                if "/pydcop/" in fn:
+                    net.env.cover("value_selection@%s:%s" % (fn.split("/pydcop/")[-1], fr.f_code.co_name))
+                return _o(val, cost)
+            c.value_selection = sel
         orig_fin = c.finished
 
         def fin(_o=orig_fin):
